@@ -395,6 +395,26 @@ func (mp MayPanic) checkFunc(r *Run, f *FuncInfo, inScope map[string]bool) int {
 				if tv, ok := c.Info.Types[e.Fun]; ok && (tv.IsType() || tv.IsBuiltin()) {
 					return true
 				}
+				// a function literal invoked in place (go func(){…}(), defer func(){…}()): its body is scanned as
+				// a function of its own when it is in the analysed set
+				if lit, ok := ast.Unparen(e.Fun).(*ast.FuncLit); ok {
+					for _, cl := range f.Closures() {
+						if cl.Lit == lit && inScope[cl.Name] {
+							report("call", e, true, "function literal invoked in place; its body is scanned as "+cl.Name)
+							return true
+						}
+					}
+					root := f
+					for root.Encl != nil {
+						root = root.Encl
+					}
+					for _, cl := range root.Closures() {
+						if cl.Lit == lit && (inScope[cl.Name] || inScope[f.Name]) {
+							report("call", e, true, "function literal invoked in place; its body is scanned with "+f.Name)
+							return true
+						}
+					}
+				}
 				// a local variable holding a function literal of this function (its body is scanned with it),
 				// or a cancel function obtained from the context package
 				if id, ok := ast.Unparen(e.Fun).(*ast.Ident); ok {
